@@ -344,6 +344,61 @@ def translate(repo):
           "Definition src_event_type_fmt : list N * list N := (%s, %s)." % (coq_bytes(ev_type[0]), coq_bytes(ev_type[1])),
           "Definition src_event_data_fmt : list N * list N := (%s, %s)." % (coq_bytes(ev_data[0]), coq_bytes(ev_data[1])), ""]
 
+    # ---- src/request.rs: read_http_request -- consumed names, literals, the two decision tables
+    rq = dict(names=[], te=[], body=[])
+    try:
+        body = fn_body(read(repo, "src/request.rs"), "pub async fn read_http_request")
+        flat = re.sub(r"\s+", "", body)
+        def need(pat, what):
+            m = re.search(pat, flat)
+            if not m:
+                raise ValueError(what)
+            return m
+        ct = need(r'\.remove_only\("([^"]*)"\)\.map_or\(ContentType::None,\|s\|ContentType::parse\(s\.as_str\(\)\)\)', "content-type removal").group(1)
+        m = need(r'\.remove_only\("([^"]*)"\)\.map_or\(false,\|s\|s\.as_str\(\)=="([^"]*)"\)', "expect removal")
+        ex, ex_val = m.group(1), m.group(2)
+        te = need(r'head\.headers\.remove_all\("([^"]*)"\);ifvalues\.len\(\)>1\{returnErr\(HttpError::UnsupportedTransferEncoding\);\}', "transfer-encoding removal").group(1)
+        need(r"\.split\(','\)\.map\(str::trim\)\.filter\(\|s\|!s\.is_empty\(\)\);match\(iter\.next\(\),iter\.next\(\),iter\.next\(\)\)", "coding list split")
+        ck = need(r'forheader_valueinhead\.headers\.get_all\("([^"]*)"\)', "cookie lookup").group(1)
+        cl = need(r'head\.headers\.get_all\("([^"]*)"\)\.as_slice\(\)\{\[\]=>None,', "content-length lookup").group(1)
+        rq["names"] = [ct, ex, ex_val, te, ck, cl]
+        tm = fn_body(body, "match (iter.next(), iter.next(), iter.next())")
+        for arm in [a.strip() for a in re.split(r",\s*\n", tm) if a.strip()]:
+            arm = arm.rstrip(",")
+            m = re.fullmatch(r'\(\s*(Some\("[^"]*"\)|None)\s*,\s*(Some\("[^"]*"\)|None)\s*,\s*(Some\("[^"]*"\)|None)\s*\)\s*=>\s*\(\s*(true|false)\s*,\s*(true|false)\s*\)', arm)
+            if m:
+                pats = ["None" if p == "None" else "Some %s" % coq_bytes(p[6:-2]) for p in m.group(1, 2, 3)]
+                rq["te"].append("((%s, %s, %s), (%s, %s))" % (pats[0], pats[1], pats[2], m.group(4), m.group(5)))
+            elif re.fullmatch(r"_\s*=>\s*return\s+Err\(HttpError::UnsupportedTransferEncoding\)", arm):
+                pass
+            else:
+                raise ValueError("coding arm %r" % arm)
+        bm = fn_body(body, "let body = match (chunked, &content_length, head.method.as_str())")
+        for arm in [a.strip() for a in re.split(r",\s*\n", bm) if a.strip()]:
+            arm = arm.rstrip(",")
+            m = re.fullmatch(r'\(\s*(true|false|_)\s*,\s*(_|None|Some\(\s*(?:\d+|[a-z_]+)\s*\))\s*,\s*(_|"[^"]*"(?:\s*\|\s*"[^"]*")*)\s*\)\s*(if\s+expect_continue\s*\|\|\s*gzip\s*)?=>\s*(RequestBody::PendingUnknown|RequestBody::empty\(\)|RequestBody::PendingKnown\(\*len\))', arm)
+            if not m:
+                raise ValueError("body arm %r" % arm)
+            chp = {"true": "Some true", "false": "Some false", "_": "None"}[m.group(1)]
+            c = m.group(2)
+            clp = "CLAny" if c == "_" else "CLNone" if c == "None" else ("CLSomeLit %s" % re.search(r"\d+", c).group(0) if re.search(r"\d", c) else "CLSomeVar")
+            mp = "None" if m.group(3) == "_" else "Some [%s]" % "; ".join(coq_bytes(x) for x in re.findall(r'"([^"]*)"', m.group(3)))
+            g = "BGExpectOrGzip" if m.group(4) else "BGNone"
+            r = {"RequestBody::PendingUnknown": "BRUnknown", "RequestBody::empty()": "BREmpty", "RequestBody::PendingKnown(*len)": "BRKnownVar"}[m.group(5)]
+            rq["body"].append("mk_body_arm (%s) (%s) (%s) %s %s" % (chp, clp, mp, g, r))
+    except Exception as e:   # noqa
+        P.append("src/request.rs read_http_request: cannot translate (%s)" % e)
+        rq = dict(names=["", "", "", "", "", ""], te=[], body=[])
+    L += ["(* src/request.rs read_http_request: consumed / looked-up field names and literals, the coding-list table, the body table *)",
+          "Definition src_req_content_type : list N := %s." % coq_bytes(rq["names"][0]),
+          "Definition src_req_expect : list N := %s." % coq_bytes(rq["names"][1]),
+          "Definition src_req_expect_value : list N := %s." % coq_bytes(rq["names"][2]),
+          "Definition src_req_transfer_encoding : list N := %s." % coq_bytes(rq["names"][3]),
+          "Definition src_req_cookie : list N := %s." % coq_bytes(rq["names"][4]),
+          "Definition src_req_content_length : list N := %s." % coq_bytes(rq["names"][5]),
+          "Definition src_te_arms : list te_arm := [\n  %s]." % ";\n  ".join(rq["te"]),
+          "Definition src_body_arms : list body_arm := [\n  %s]." % ";\n  ".join(rq["body"]), ""]
+
     # ---- src/cookie.rs: impl Display for Cookie, statement by statement
     segs = []
     try:
@@ -406,7 +461,7 @@ def translate(repo):
 
     items = [("chunk", "src/util.rs"), ("event_queue", "src/response.rs"), ("conn_buf", "src/http_conn.rs"),
              ("time", "src/time.rs"), ("content_type", "src/content_type.rs"), ("log_prio", "src/log/logger.rs"),
-             ("event_fmt", "src/event.rs"), ("regex", "src/head.rs"), ("cookie", "src/cookie.rs")]
+             ("event_fmt", "src/event.rs"), ("regex", "src/head.rs"), ("cookie", "src/cookie.rs"), ("request", "src/request.rs")]
     L.append("(* what the translator could not read, per item (0 everywhere = the translation is complete) *)")
     for key, prefix in items:
         L.append("Definition src_problems_%s : nat := %d." % (key, sum(1 for p in P if p.startswith(prefix))))
